@@ -50,6 +50,13 @@ CHECKS = {
              "stream == print and JSON validity.",
         note="Trusts glibc strto*/printf rounding, python's json module; finite normal values only.",
         ref="3/C15"),
+    "C19": dict(
+        technique="runtime monitoring of generated programs: the expression is evaluated during dynamic initialisation and again inside main() under g++ and clang++, -O0/-O2(+O1/O3), 1-3 TUs with permuted link order; a non-perturbing probe records which library tables are populated when user initialisation starts",
+        text="One generated program per library facility (26 facilities x 3 numeric types), compiled with both compilers at several "
+             "optimisation levels, compares the value computed by a namespace-scope initialiser with the same expression in main(); "
+             "3-TU programs are linked in permuted orders. The schedules explored are exactly the initialisation orders the two compilers produce.",
+        note="Known finding (GCC, run-time conversion dispatch tables) is listed in known_findings.json per facility; everything else must pass.",
+        ref="3/C19"),
 }
 
 PENDING = {}
